@@ -406,6 +406,11 @@ func (root *Root) ParseReader(r io.Reader) error {
 		undo, err = root.addExtends(extends...)
 	}
 	if err == nil {
+		if root.schema != nil {
+			// An implicit schema gains fields for root types that arrive
+			// with this load, that has to be undone as well on failure.
+			undo = append(undo, extendUndo(root.schema))
+		}
 		root.assureSchema()
 		err = root.validate()
 	}
